@@ -393,7 +393,10 @@ namespace ipr {
          {
             static constexpr const char* syntax[] = { "\0\0", "()", "{}", "[]", "<>" };
             const auto delimiters = syntax[util::rep(e.delimiters())];
-            pp << token(delimiters[0]) << xpr_expr(e.expr()) << token(delimiters[1]);
+            if (e.delimiters() == Delimiter::Nothing)
+               pp << xpr_expr(e.expr());
+            else
+               pp << token(delimiters[0]) << xpr_expr(e.expr()) << token(delimiters[1]);
          }
          void visit(const Expr& e) override
          {
